@@ -107,8 +107,8 @@ def nan_rule(prog, res, ents):
             continue
         e = sym.Sym(prog, f).at(rets[0]).local(0)
         try:
-            a = formula.evaluate(e, {"@fn:is_nan": lambda *x: 1, "@fn:is_infinite": lambda *x: 0, "@prog": prog})
-            b = formula.evaluate(e, {"@fn:is_nan": lambda *x: 0, "@fn:is_infinite": lambda *x: 0, "@prog": prog})
+            a = formula.evaluate(e, {"@fn:is_nan": lambda *x: 1, "@fn:is_infinite": lambda *x: 0, "@prog": prog, "@lenient": ("is_nan", "is_infinite")})
+            b = formula.evaluate(e, {"@fn:is_nan": lambda *x: 0, "@fn:is_infinite": lambda *x: 0, "@prog": prog, "@lenient": ("is_nan", "is_infinite")})
         except formula.Uneval:
             continue
         if isinstance(a, tuple) and a[:2] == ("$variant", "Err") and isinstance(b, tuple) and b[:2] == ("$variant", "Ok"):
